@@ -200,6 +200,7 @@ class Rig:
         if k == 'tmcp' and mode[3]:
             self.copy_source['VersionId'] = 'srcver'
         self.copy_source_given = dict(self.copy_source)
+        self.copy_source_seen = dict(self.copy_source)
         self.size_holder = holder = {'size': None}
 
         class ProvideSize(BaseSubscriber):
@@ -347,8 +348,9 @@ class Rig:
     def caller_objects_changed(self):
         """Names of the caller-owned shared objects the library has modified."""
         out = []
-        if self.copy_source != self.copy_source_given:
-            out.append(('copy_source', f'{self.copy_source_given} became {self.copy_source}'))
+        if self.copy_source != self.copy_source_seen:     # relative to the state before this transfer
+            out.append(('copy_source', f'{self.copy_source_seen} became {self.copy_source}'))
+            self.copy_source_seen = dict(self.copy_source)
         if len(self.subscribers) != len(self.subscribers_given) or \
                 any(a is not b for a, b in zip(self.subscribers, self.subscribers_given)):
             out.append(('subscribers', 'the subscribers list was modified'))
@@ -502,7 +504,9 @@ def oracle(mode, d, result):
             if val.startswith('U:'):
                 a = ids.get(val[2:])
                 if a is None or target(a) != name:
-                    bad(op, name, 'misrouted', f'{fe} {mn}: {op} received {name}={val}, the value of {a}')
+                    bad(op, name, 'misrouted', f'{fe} {mn}: {op} received {name}={val}, ' +
+                        (f'the value of {a}' if a is not None else
+                         f'a user value that is not in this transfer\'s extra_args {list(d)}'))
             elif name == 'CopySource' and val != 'P':
                 bad(op, name, 'copy-source-modified',
                     f'{fe} {mn}: the CopySource value passed to {op} is not the caller\'s (keys {val[len("L:CopySource"):]}; '
